@@ -31,6 +31,23 @@ class LookupFailed(Undecided):
     """A table has no entry for the key (the analysed code would raise KeyError / IndexError)."""
 
 
+class StructObj:
+    """struct.Struct(fmt) for a format with an explicit standard-size prefix."""
+
+    def __init__(self, fmt):
+        self.format = fmt
+        self.size = calcsize(fmt)
+
+    def __eq__(self, o):
+        return isinstance(o, StructObj) and o.format == self.format
+
+    def __hash__(self):
+        return hash(('Struct', self.format))
+
+    def __repr__(self):
+        return 'Struct({!r})'.format(self.format)
+
+
 class Lin:
     """a * L + b for one symbolic non-negative integer L (the number of values of a sequence)."""
 
@@ -199,7 +216,13 @@ class SymEval:
                 return {'True': True, 'False': False, 'None': None}[v[1]]
             return self.module_value(v[1])
         if k == 'attr':
-            return self.class_attr(v)
+            try:
+                return self.class_attr(v)
+            except Undecided:
+                base = self.ev(v[1])
+                if isinstance(base, StructObj) and v[2] in ('format', 'size'):
+                    return getattr(base, v[2])
+                raise
         if k == 'dict':
             out = {}
             for a, b in v[1]:
@@ -296,6 +319,8 @@ class SymEval:
             kwargs = {n: self.ev(a) for n, a in v[3]}
             if name == 'struct.calcsize' and len(args) == 1 and not kwargs:
                 return calcsize(args[0])
+            if name == 'struct.Struct' and len(args) == 1 and not kwargs:
+                return StructObj(args[0])
             if name in ('len', 'int', 'str', 'bool', 'abs', 'min', 'max', 'list', 'tuple', 'sorted', 'dict', 'set', 'frozenset', 'sum', 'ord', 'chr', 'range', 'zip', 'enumerate'):
                 try:
                     r = {'len': len, 'int': int, 'str': str, 'bool': bool, 'abs': abs, 'min': min, 'max': max, 'list': list, 'tuple': tuple, 'sorted': sorted,
